@@ -12,9 +12,7 @@ NOT_APPLICABLE = {
     "C02": "Iterator positioning is a function of runtime keys/bounds and the iterPos state machine; no clause is visible in the shape of the code without re-deriving the algorithm (value-level).",
     "C09": "The masking rule s <= r < p is three comparisons on runtime suffixes; deciding it needs the comparer's semantics (solver territory, different technique family).",
     "C15": "The level invariant is over runtime key bounds and sequence numbers; the code ensuring it is arithmetic on those. CheckOrdering is a runtime detector, not a structural necessary condition.",
-    "C16": "Pure data-structure algorithm over runtime intervals (L0 sublevels); no structural clause.",
     "C25": "SSTable round trip is value-level over runtime keys and writer options.",
-    "C26": "Filter false negatives are bit arithmetic on hashes; no structural clause worth claiming.",
     "C29": "Virtual tables / transforms / CopySpan are value-level transformations of runtime keys.",
     "C32": "Span fragmentation coverage is a value-level algorithm on runtime spans.",
     "C33": "Merged iteration over levels is a value-level algorithm on runtime keys/levels.",
